@@ -392,6 +392,15 @@ def gen_cases(ctx):
                    "arrivals": [[shift, "notification"], [round(T + 0.1, 3), "match_result"]]}
             yield {"mid": None, "params": None, "build": "parse", "timeout": T,
                    "arrivals": [[shift, "other_response"], [round(T - 0.05, 3), "match_result"]]}
+    # 1b'. boundary deadlines: zero, tiny, huge
+    for T, times in ((0.0, [0.0, 0.2]), (0.01, [0.0, 0.005, 0.2]), (1e6, [0.0, 3.0, 60.25]), (86400.0 * 365, [12.5])):
+        for t in times:
+            for kind in ("match_result", "match_error", "notification", "same_id_request"):
+                if T > 100 and not kind.startswith("match"):
+                    continue   # nothing ever matches: the call would poll for the whole (huge) deadline
+                yield {"mid": None, "params": None, "build": "parse", "arrivals": [[t, kind]], "timeout": T}
+            yield {"mid": None, "params": None, "build": "parse", "timeout": T,
+                   "arrivals": [[t, "other_response"], [t, "match_result"]]}
     # 1c. the optional arguments of the call switch on other code paths in the wait loop: every kind, alone and
     #     followed by a matching response, with a progress callback and/or a (never triggered) cancellation token
     for optset in (["progress_cb"], ["cancel_token"], ["progress_cb", "cancel_token"]):
